@@ -129,6 +129,17 @@ func (e *Enc) instrEffect(in ssa.Instruction, ef *effect) {
 				}
 			}
 		case *ssa.Function:
+			if pkgPathOf(callee) == "sort" && len(c.Args) > 0 {
+				// sort.Strings / sort.Slice / sort.Ints ...: writes only the elements of the slice it is given
+				t := c.Args[0].Type()
+				if mi, ok := c.Args[0].(*ssa.MakeInterface); ok {
+					t = mi.X.Type()
+				}
+				if sl, ok := t.Underlying().(*types.Slice); ok {
+					namesOfType(sl.Elem(), ef.names)
+					return
+				}
+			}
 			if pkgPathOf(callee) == "encoding/json" && callee.Name() == "Unmarshal" {
 				if mi, ok := c.Args[1].(*ssa.MakeInterface); ok {
 					if pt, ok := mi.X.Type().Underlying().(*types.Pointer); ok {
@@ -164,7 +175,7 @@ func newEnc(prog *ssa.Program, fn *ssa.Function, db *ContractDB) *Enc {
 	return &Enc{prog: prog, fn: fn, db: db, con: db.byFunc[fname(fn)], declared: map[string]bool{},
 		vals: map[ssa.Value]*Val{}, locs: map[ssa.Value]*Loc{}, endState: map[*ssa.BasicBlock]State{},
 		reach: map[*ssa.BasicBlock]string{}, kindN: map[string]int{}, tags: map[string]int{},
-		params: map[string]*Val{}, effects: map[*ssa.Function]*effect{}, ranges: map[*ssa.Range]*rangeInfo{}, freeRef: map[string]*Val{}}
+		params: map[string]*Val{}, effects: map[*ssa.Function]*effect{}, ranges: map[*ssa.Range]*rangeInfo{}, freeRef: map[string]*Val{}, merges: map[int]*mergeInfo{}, dyn: map[ssa.Value]types.Type{}}
 }
 
 func (e *Enc) run() {
@@ -178,7 +189,7 @@ func (e *Enc) run() {
 		}
 		li.all = ef.all
 	}
-	e.entry = State{m: map[string]string{}, epoch: 0}
+	e.entry = State{m: map[string]string{}, epoch: 0, unesc: map[*ssa.Alloc]string{}}
 	alloc0 := e.declare("alloc!0", "Int")
 	e.assume(app(">=", alloc0, "0"))
 	for i, p := range e.fn.Params {
@@ -192,9 +203,37 @@ func (e *Enc) run() {
 			}
 		}
 		if i == 0 && e.fn.Signature.Recv() != nil {
-			if _, ok := p.Type().Underlying().(*types.Pointer); ok {
-				e.assume(not(eq(v.c[0], "null"))) // default: receiver non-nil (stated assumption)
+			if _, ok := p.Type().Underlying().(*types.Pointer); ok && !(e.con != nil && e.con.NilableRecv) {
+				e.assume(not(eq(v.c[0], "null"))) // receiver non-nil: checked at every static call site in functions under contract
 			}
+		} else if !(e.con != nil && e.con.Nilable[p.Name()]) {
+			// default precondition (stated assumption): callbacks and interface-typed parameters are non-nil
+			switch pt := p.Type().Underlying().(type) {
+			case *types.Signature:
+				e.assume(not(eq(v.c[0], "null")))
+			case *types.Interface:
+				// non-empty interfaces other than error (Reader, Writer, KeyChecker ...): nil is API misuse
+				if _, isTP := p.Type().(*types.TypeParam); !isTP && pt.NumMethods() > 0 && types.TypeString(p.Type(), nil) != "error" {
+					e.assume(not(eq(v.c[0], "0")))
+				}
+			}
+		}
+	}
+	for _, p := range e.fn.Params {
+		ts, ok := e.spec[p.Name()]
+		if !ok {
+			continue
+		}
+		t := e.lookupType(ts)
+		if t == nil {
+			panic("specialization: unknown type " + ts)
+		}
+		v := e.vals[p]
+		e.dyn[p] = t
+		e.assume(eq(v.c[0], e.typeTag(t)))
+		if _, isPtr := t.Underlying().(*types.Pointer); isPtr {
+			e.params[p.Name()] = &Val{typ: t, c: []string{v.c[1]}}
+			e.assume(not(eq(v.c[1], "null")))
 		}
 	}
 	e.reach[e.fn.Blocks[0]] = "true"
@@ -301,10 +340,40 @@ func (e *Enc) bindFreeVars() {
 		if byRef[i] {
 			e.assume(app("(_ is obj)", v.c[0]))
 			e.freeRef[fv.Name()] = v
+			if pt, ok := fv.Type().Underlying().(*types.Pointer); ok {
+				if _, isFn := pt.Elem().Underlying().(*types.Signature); isFn {
+					// default precondition: captured callbacks are non-nil
+					e.assume(not(eq(e.loadAt(&e.entry, v.c[0], pt.Elem()).c[0], "null")))
+				}
+			}
 		} else {
 			e.params[fv.Name()] = v
+			if _, ok := fv.Type().Underlying().(*types.Signature); ok {
+				e.assume(not(eq(v.c[0], "null"))) // default precondition: captured callbacks are non-nil
+			}
 		}
 	}
+}
+
+// lookupType resolves "pkg.Name" or "*pkg.Name" among the loaded module packages.
+func (e *Enc) lookupType(s string) types.Type {
+	ptr := strings.HasPrefix(s, "*")
+	s = strings.TrimPrefix(s, "*")
+	pk, name, ok := strings.Cut(s, ".")
+	if !ok {
+		return nil
+	}
+	for _, sp := range e.prog.AllPackages() {
+		if sp.Pkg.Name() == pk && strings.HasPrefix(sp.Pkg.Path(), modRoot) {
+			if o := sp.Pkg.Scope().Lookup(name); o != nil {
+				if ptr {
+					return types.NewPointer(o.Type())
+				}
+				return o.Type()
+			}
+		}
+	}
+	return nil
 }
 
 func shorten(s string) string {
@@ -331,7 +400,7 @@ func (e *Enc) block(b *ssa.BasicBlock) {
 	} else {
 		if len(fwd) == 0 { // unreachable
 			e.reach[b] = "false"
-			e.endState[b] = State{m: map[string]string{}}
+			e.endState[b] = State{m: map[string]string{}, unesc: map[*ssa.Alloc]string{}}
 			return
 		}
 		r := e.declare(fmt.Sprintf("reach!%d", b.Index), "Bool")
@@ -366,6 +435,9 @@ func (e *Enc) block(b *ssa.BasicBlock) {
 				e.assume(imp(e.edgeCond(p, b), and(eqs...)))
 			}
 			continue
+		}
+		for _, a := range escapes(in) {
+			delete(st.unesc, a)
 		}
 		e.instr(in, &st)
 	}
@@ -405,7 +477,7 @@ func (e *Enc) loopEdge(li *loopInfo, p *ssa.BasicBlock, kind string) {
 		cd := e.cands[li.cidx[k]]
 		goal := imp(e.edgeCond(p, li.header), c(sub, st))
 		o := &Obligation{
-			Name:    fmt.Sprintf("%s/%s#%s:loop%d:%s@%d", e.mod, fname(e.fn), kind, li.ordinal, cd.desc, e.kindN[kind+cd.desc]),
+			Name:    fmt.Sprintf("%s/%s#%s:loop%d:%s@%d", e.mod, e.fnName(), kind, li.ordinal, cd.desc, e.kindN[kind+cd.desc]),
 			Owned:   cd.user,
 			Block:   p.Index,
 			Kind:    kind,
@@ -555,14 +627,17 @@ func (e *Enc) loopHeader(b *ssa.BasicBlock, li *loopInfo, fwd []*ssa.BasicBlock,
 					continue
 				}
 				entry := e.loadLoc(&e.entry, loc)
-				add(pname+"."+prefix+f.Name()+"==entry", false, func(sub map[ssa.Value]*Val, s State) string {
-					cur := e.loadLoc(&s, loc)
-					var eqs []string
-					for k := range cur.c {
-						eqs = append(eqs, eq(cur.c[k], entry.c[k]))
+				for k, lf := range leaves(f.Type()) {
+					k := k
+					nm := pname + "." + prefix + f.Name()
+					if lf.path != "" {
+						nm += ":" + lf.path
 					}
-					return and(eqs...)
-				})
+					add(nm+"==entry", false, func(sub map[ssa.Value]*Val, s State) string {
+						cur := e.loadLoc(&s, loc)
+						return eq(cur.c[k], entry.c[k])
+					})
+				}
 			}
 		}
 		walk(ref, pt.Elem(), "", 0)
@@ -584,13 +659,21 @@ func (e *Enc) loopHeader(b *ssa.BasicBlock, li *loopInfo, fwd []*ssa.BasicBlock,
 		e.loopEdge(li, p, "inv-entry")
 	}
 	// havoc
+	for blk := range li.body {
+		for _, in := range blk.Instrs {
+			for _, a := range escapes(in) {
+				delete(st.unesc, a)
+			}
+		}
+	}
 	if li.all {
-		e.havocAll(st)
+		e.havocAllExcept(st, li.writes)
 	} else {
 		for n := range li.writes {
 			if srt, ok := arrSorts[n]; ok {
 				e.n++
 				st.m[n] = e.declare(fmt.Sprintf("%s@%d", n, e.n), srt)
+				e.wfArray(n, st.m[n])
 			} else {
 				e.havocAll(st) // maps / element writes via builtins: coarse
 				break
